@@ -10,7 +10,7 @@ use version_lsp::version::error::CacheError;
 #[derive(Default)]
 pub struct CacheState {
     pub dir: Option<tempfile::TempDir>,
-    pub handles: HashMap<String, Cache>,
+    pub handles: HashMap<String, std::sync::Arc<Cache>>,
     pub ip: bool,
     pub interval: i64,
 }
@@ -54,7 +54,7 @@ impl CacheState {
     pub fn db_path(&self) -> std::path::PathBuf {
         self.dir.as_ref().expect("reset first").path().join("versions.db")
     }
-    fn h(&self, id: &str) -> &Cache {
+    pub fn h(&self, id: &str) -> &Cache {
         self.handles.get(id).unwrap_or_else(|| panic!("no handle {id}"))
     }
 }
@@ -146,7 +146,7 @@ pub fn dispatch(st: &mut CacheState, op: &str, f: &[String]) -> Option<String> {
             let p = st.db_path();
             match Cache::new(&p, st.interval, st.ip) {
                 Ok(c) => {
-                    st.handles.insert(f[0].clone(), c);
+                    st.handles.insert(f[0].clone(), std::sync::Arc::new(c));
                     "ok".into()
                 }
                 Err(e) => err_str(&e),
